@@ -74,6 +74,22 @@ def gen(rng, tier):
     ops = list()
     if rng.random() < 0.2:
         ops.append([round(rng.uniform(0.5, 3.0), 2), 'late_master'])
+    sc_ = _gen_tail(rng, n_cores, n_gpus, reqs, ops)
+    # the driver plays the pilot's executor for executable requests: they come
+    # back to the master (`raptor_state_update`), also those which code in a
+    # worker asked the master to run (no `raptor_id`).  Drawn last.
+    sc_['exec_return'] = rng.random() < 0.5
+    if sc_['exec_return'] and not sc_['insert_fail']:
+        # (not together with the injected publish failure: the service call
+        # then ends with that error for its caller)
+        for r in reqs:
+            if r['mode'] == 'executable' and rng.random() < 0.4:
+                r['via'] = 'service'
+                r['cores'], r['gpus'] = 1, 0
+    return sc_
+
+
+def _gen_tail(rng, n_cores, n_gpus, reqs, ops):
     return {'n_cores': n_cores, 'n_gpus': n_gpus, 'reqs': reqs, 'ops': ops,
             'late_master': rng.random() < 0.3,
             'delay_max': rng.choice([0.0, 0.0, 0.05]),
@@ -430,6 +446,28 @@ def _run(seed, scenario, trace=None, tier='quick'):
                                       st['exec_routed']), 'coll.in',
                       group='driver')
 
+            def executor():
+                # the pilot's executor for executable requests: what
+                # AgentExecutingComponent.advance_tasks publishes when such a
+                # task has run (origin raptor, or owned by a master)
+                spub = N.Publisher(rpc.STATE_PUBSUB, url=reg[
+                    'bridges.%s' % rpc.STATE_PUBSUB]['addr_pub'])
+                seen = set()
+                while True:
+                    sim.sleep(0.2)
+                    for uid, lst in sorted(st['exec_routed'].items()):
+                        if uid in seen:
+                            continue
+                        seen.add(uid)
+                        t = copy.deepcopy(lst[0])
+                        t['exit_code'] = 0
+                        t['state'] = rps.AGENT_STAGING_OUTPUT_PENDING
+                        sim.probe('executable_returned')
+                        spub.put(rpc.STATE_PUBSUB, {
+                            'cmd': 'raptor_state_update', 'arg': [t]})
+            if sc.get('exec_return'):
+                sim.spawn(executor, 'executor.stub', group='driver')
+
             put = N.Putter(rpc.AGENT_SCHEDULING_QUEUE, url=reg[
                 'bridges.%s' % rpc.AGENT_SCHEDULING_QUEUE]['addr_put'])
 
@@ -440,6 +478,9 @@ def _run(seed, scenario, trace=None, tier='quick'):
                           what='master')
                 d = make_descr(i, sc['reqs'][i])
                 del d['uid']
+                if sc.get('exec_return'):
+                    # (as code in a worker builds it: no owner named)
+                    d.pop('raptor_id', None)
                 run_task = st['master']._task_service.handlers['run_task']
                 sim.probe('service_request')
                 ret = run_task(d)
@@ -528,8 +569,9 @@ def _run(seed, scenario, trace=None, tier='quick'):
             limit = sim.now + 60.0
             while sim.now < limit:
                 sim.sleep(0.5)
-                if all(u in st['results'] or u in st['exec_routed'] or
-                       u in st['canceled'] or u in st['master_failed']
+                if all(u in st['results'] or
+                       (u in st['exec_routed'] and not sc.get('exec_return'))
+                       or u in st['canceled'] or u in st['master_failed']
                        for u in st['tasks']) and net.idle() and \
                         all(v['ret'] is not None for v in st['svc'].values()):
                     break
@@ -690,7 +732,16 @@ def _run(seed, scenario, trace=None, tier='quick'):
                                        'to_agent': len(routed)})
                     continue
                 if r['mode'] == 'executable':
-                    if len(routed) != 1 or res:
+                    if sc.get('exec_return'):
+                        # it ran in the pilot and came back: one result
+                        if len(routed) != 1 or len(res) != 1 or \
+                                res[0].get('target_state') != rps.DONE:
+                            sim.violation(PROP, 'result_count',
+                                          'executable_return',
+                                          {'uid': uid,
+                                           'to_agent': len(routed),
+                                           'results': len(res)})
+                    elif len(routed) != 1 or res:
                         sim.violation(PROP, 'misrouted', 'master',
                                       {'uid': uid, 'to_agent': len(routed),
                                        'to_output': len(res)})
